@@ -22,6 +22,23 @@ What is transcribed (the Rust that exists):
   read version/flags scalar holds (`RF`).  Fixed-size records (`#[repr(packed)]` structs of `BigEndian<T>`) are
   the list of their field widths.
 
+Round 4 (computed sizes, external arguments, count transforms, length-prefixed elements, format dispatch):
+* `ComputeSize` records (`font-codegen/src/record.rs`: `impl ComputeSize for R`, `ComputedArray<'a, R>`, and the hand-written
+  `ComputeSize for ValueRecord` in read-fonts/src/tables/value_record.rs): the byte size of one array element is an
+  expression of previously read fields / of the reader's arguments.  An element is still the flat list of its scalars;
+  the reader's element layout is a list of segments `(n, ws)` = "`n` copies of the scalar group `ws`" with `n : NExpr`
+  (`RItem.arrayV`).  The writer of such an element (`Vec<T>` fields of the element record, the hand-written
+  `FontWrite for ValueRecord`) knows no count: it writes a fixed prefix of scalars followed by *any number* of scalars of
+  one width (`WItem.arrayV pre tail`).
+* `FontReadWithArgs` (`read_with_args(data, &args)`): the arguments are entries of the *initial* view the reader and the
+  writer start from (ids from `argBase`); the writer never looks at them.
+* `#[count(..)]` transforms (`read-fonts/src/lib.rs  codegen_prelude::transforms`) and hand-written count functions
+  (`DeltaFormat::value_count`, `EntryFormat::map_size`, `ItemVariationData::delta_sets_len`, `TupleIndex::tuple_len`):
+  `RCount.expr (e : NExpr)`.
+* `VarLenArray<T>` (`read-fonts/src/array.rs`, `VarSize`): every element carries its own item count in a `hw`-byte
+  prefix (`WItem.arrayL`, `RItem.arrayL`).
+* format enums (`font-codegen/src/table.rs::generate_format_group`): `Variant`, `emitEnum`, `parseEnum`.
+
 Values are *raw*: a scalar is the unsigned big-endian number stored in its bytes (sign, fixed-point scaling and
 newtypes are bijective re-interpretations on both sides and are exercised by the harness).
 
@@ -66,6 +83,63 @@ def Cond.eval : Cond → Nat → Bool
   | .contains bits, x => decide (Nat.land x bits = bits)
   | .intersects bits, x => decide (Nat.land x bits ≠ 0)
 
+/-! ## numbers the generated readers compute (count transforms, computed element sizes) -/
+
+/-- `usize::MAX` on the 64-bit targets -/
+def MAXU : Nat := 18446744073709551615
+/-- `usize::saturating_add` -/
+def satAdd (a b : Nat) : Nat := if a + b ≤ MAXU then a + b else MAXU
+/-- `usize::saturating_mul` -/
+def satMul (a b : Nat) : Nat := if a * b ≤ MAXU then a * b else MAXU
+
+/-- `count_ones` of the low `k` bits -/
+def popcount : Nat → Nat → Nat
+  | 0, _ => 0
+  | k + 1, n => n % 2 + popcount k (n / 2)
+
+/-- hand-written count functions that generated readers call (`#[count($fn(..))]`), transcribed from
+read-fonts/src/tables/{layout,variations}.rs on raw argument values (the translator ties their source by token hash) -/
+inductive CFn
+  | valueCount      -- `DeltaFormat::value_count(delta_format, start_size, end_size)`
+  | mapSize         -- `EntryFormat::map_size(entry_format, map_count)`
+  | deltaSetsLen    -- `ItemVariationData::delta_sets_len(item_count, word_delta_count, region_index_count)`
+  | tupleLen        -- `TupleIndex::tuple_len(tuple_index, axis_count, flag)`
+  deriving DecidableEq, Repr
+
+def CFn.eval : CFn → Nat → Nat → Nat → Nat
+  -- `range_len = (end_size as usize + 1).saturating_sub(start_size as usize)`; `val_per_word` 8 / 4 / 2 for
+  -- Local{2,4,8}BitDeltas (raw 1, 2, 3), any other format → 0; `range_len / vpw + (range_len % vpw).min(1)`
+  | .valueCount, fmt, startSize, endSize =>
+    let rangeLen := (endSize + 1) - startSize
+    let vpw := if fmt = 1 then 8 else if fmt = 2 then 4 else if fmt = 3 then 2 else 0
+    if vpw = 0 then 0 else rangeLen / vpw + min (rangeLen % vpw) 1
+  -- `entry_size() as usize * map_count`, `entry_size = ((bits & 0x30) >> 4) + 1`
+  | .mapSize, ef, mapCount, _ => (ef / 16 % 4 + 1) * mapCount
+  -- `delta_row_len(word_delta_count, region_index_count) * item_count`
+  | .deltaSetsLen, itemCount, wdc, ric =>
+    let long := wdc / 32768 % 2 = 1
+    let wordSize := if long then 4 else 2
+    let smallSize := if long then 2 else 1
+    let longCount := wdc % 32768
+    (longCount * wordSize + (ric - longCount) * smallSize) * itemCount
+  -- `flag == 0`: `embedded_peak_tuple() (0x8000) as usize * axis_count`, else `intermediate_region() (0x4000)`
+  | .tupleLen, ti, axisCount, flag =>
+    if flag = 0 then (ti / 32768 % 2) * axisCount else (ti / 16384 % 2) * axisCount
+
+/-- a `usize` the reader computes from fields it has already read and from its external arguments (both are entries
+of the view; `x as usize` / `x.try_into().unwrap_or_default()` of an *unsigned* scalar is its raw value) -/
+inductive NExpr
+  | lit (n : Nat)
+  | field (g : Nat)
+  | add (a b : NExpr)                 -- `saturating_add` (`transforms::add`, `checked_add` of sizes)
+  | sub (a b : NExpr)                 -- `saturating_sub` (`transforms::subtract`)
+  | mul (a b : NExpr)                 -- `saturating_mul` (`transforms::add_multiply`, `checked_mul` of sizes)
+  | div (a : NExpr) (k : Nat)         -- `/ k` (`transforms::half`)
+  | divCeil (a : NExpr) (k : Nat)     -- `div_ceil(k)` (`transforms::bitmap_len`)
+  | popcnt (k : Nat) (a : NExpr)      -- `count_ones` of the low `k` bits (`ValueFormat::record_byte_len / 2`)
+  | app (f : CFn) (a b c : NExpr)     -- a hand-written count function
+  deriving DecidableEq, Repr
+
 /-- where the number written by a scalar statement comes from -/
 inductive WSrc
   | field                          -- `self.f`
@@ -77,6 +151,12 @@ inductive WSrc
 inductive WItem
   | scalar (src : WSrc) (sz : Nat)
   | array (elem : List Nat) (fixed : Option Nat)   -- `Vec<T>` (`fixed = none`) or `[T; n]`
+  /-- `Vec<T>` (or, `fixed = some 1`, one inline `T`) of records whose writer emits the scalars `pre` followed by any
+  number of `tail`-byte scalars (a record with a `Vec` field, the hand-written `ValueRecord`, nestings of these) -/
+  | arrayV (pre : List Nat) (tail : Nat) (fixed : Option Nat)
+  /-- `Vec<T>` of records that write `u<hw>::try_from(array_len(items)).unwrap()` and then the items (fixed-size
+  records `item`): the elements of a `VarLenArray` -/
+  | arrayL (hw : Nat) (item : List Nat)
   deriving DecidableEq, Repr
 
 /-- one statement of a generated `write_into` -/
@@ -91,11 +171,17 @@ inductive RCount
   | affine (g a b : Nat)           -- `(value of field g - b) / a`   (`as usize`, `subtract`, `half`)
   | lit (n : Nat)
   | rest                           -- `cursor.remaining_bytes() / size`
+  | expr (e : NExpr)               -- any other count expression (transforms, custom functions, external arguments)
   deriving DecidableEq, Repr
+
+/-- the element layout of a `ComputedArray`: segments "`n` copies of the scalar group `ws`" -/
+abbrev Segs := List (NExpr × List Nat)
 
 inductive RItem
   | scalar (sz : Nat)
   | array (cnt : RCount) (elem : List Nat)
+  | arrayV (cnt : RCount) (segs : Segs)                 -- elements of a size computed from fields / arguments
+  | arrayL (cnt : RCount) (hw : Nat) (item : List Nat)  -- `VarLenArray`: each element = `hw`-byte item count + items
   deriving DecidableEq, Repr
 
 /-- one field of a generated reader -/
@@ -126,6 +212,46 @@ def condHolds (v : View) : Option (Nat × Cond) → Bool
 
 def elemSize (elem : List Nat) : Nat := elem.foldr (· + ·) 0
 
+/-- ids of the reader's external arguments (`read_with_args(data, &args)`): entry `argBase + i` of the initial view -/
+def argBase : Nat := 1000
+
+def NExpr.eval (view : View) : NExpr → Nat
+  | .lit n => n
+  | .field g => numAt view g
+  | .add a b => satAdd (a.eval view) (b.eval view)
+  | .sub a b => a.eval view - b.eval view
+  | .mul a b => satMul (a.eval view) (b.eval view)
+  | .div a k => a.eval view / k
+  | .divCeil a k => (a.eval view + (k - 1)) / k
+  | .popcnt k a => popcount k (a.eval view)
+  | .app f a b c => f.eval (a.eval view) (b.eval view) (c.eval view)
+
+/-- the fields / arguments an expression reads -/
+def NExpr.refs : NExpr → List Nat
+  | .lit _ => []
+  | .field g => [g]
+  | .add a b => a.refs ++ b.refs
+  | .sub a b => a.refs ++ b.refs
+  | .mul a b => a.refs ++ b.refs
+  | .div a _ => a.refs
+  | .divCeil a _ => a.refs
+  | .popcnt _ a => a.refs
+  | .app _ a b c => a.refs ++ b.refs ++ c.refs
+
+/-- `n` copies of a scalar group -/
+def repGroup : Nat → List Nat → List Nat
+  | 0, _ => []
+  | n + 1, ws => ws ++ repGroup n ws
+
+/-- the scalar widths of one element of a `ComputedArray` (`ComputeSize::compute_size` + `read_with_args`) -/
+def evalSegs (view : View) : Segs → List Nat
+  | [] => []
+  | (n, ws) :: rest => repGroup (n.eval view) ws ++ evalSegs view rest
+
+def segsRefs : Segs → List Nat
+  | [] => []
+  | (n, _) :: rest => n.refs ++ segsRefs rest
+
 /-! ## writer -/
 
 /-- a record: its fields in order -/
@@ -145,6 +271,31 @@ def emitRecs (elem : List Nat) : List (List Nat) → Option Bytes
     match emitRec elem r, emitRecs elem rs with
     | some a, some b => some (a ++ b)
     | _, _ => none
+
+/-- the scalar widths the writer of a variable-size record uses for an element of `len` scalars -/
+def wWidths (pre : List Nat) (tail len : Nat) : List Nat := pre ++ List.replicate (len - pre.length) tail
+
+/-- elements that are a fixed prefix followed by any number of `tail`-byte scalars -/
+def emitRecsV (pre : List Nat) (tail : Nat) : List (List Nat) → Option Bytes
+  | [] => some []
+  | r :: rs =>
+    if pre.length ≤ r.length then
+      match emitRec (wWidths pre tail r.length) r, emitRecsV pre tail rs with
+      | some a, some b => some (a ++ b)
+      | _, _ => none
+    else none
+
+/-- length-prefixed elements: `u<hw>::try_from(array_len(items)).unwrap()`, then the items; an element is the flat list
+of the scalars of its items (`none`: the count does not fit, or the scalars are not whole items) -/
+def emitRecsL (hw : Nat) (item : List Nat) : List (List Nat) → Option Bytes
+  | [] => some []
+  | r :: rs =>
+    let k := r.length / item.length
+    if r.length = k * item.length ∧ k < 256 ^ hw then
+      match emitRec (repGroup k item) r, emitRecsL hw item rs with
+      | some a, some b => some (be hw k ++ a ++ b)
+      | _, _ => none
+    else none
 
 /-- hand-written `compute_*` functions: any function of the value -/
 abbrev Ext := Nat → Obj → Nat
@@ -176,6 +327,22 @@ def emitField (ext : Ext) (o : Obj) (view : View) (w : WF) : Option (Bytes × Va
           | some b => some (b, .arr xs)
           | none => none
         else none
+      | _ => none
+    | .arrayV pre tail fixed =>
+      match o.get w.id with
+      | .arr xs =>
+        if fixedOk fixed xs.length then
+          match emitRecsV pre tail xs with
+          | some b => some (b, .arr xs)
+          | none => none
+        else none
+      | _ => none
+    | .arrayL hw item =>
+      match o.get w.id with
+      | .arr xs =>
+        match emitRecsL hw item xs with
+        | some b => some (b, .arr xs)
+        | none => none
       | _ => none
   else some ([], .absent)
 
@@ -211,10 +378,24 @@ def parseRecs (elem : List Nat) : Nat → Bytes → Option (List (List Nat) × B
       | none => none
       | some (rs, rest') => some (r :: rs, rest')
 
+/-- `VarLenArray` elements: `hw`-byte item count, then that many items -/
+def parseRecsL (hw : Nat) (item : List Nat) : Nat → Bytes → Option (List (List Nat) × Bytes)
+  | 0, bs => some ([], bs)
+  | n + 1, bs =>
+    if bs.length < hw then none
+    else
+      match parseRec (repGroup (beVal (bs.take hw)) item) (bs.drop hw) with
+      | none => none
+      | some (r, rest) =>
+        match parseRecsL hw item n rest with
+        | none => none
+        | some (rs, rest') => some (r :: rs, rest')
+
 def evalCount (view : View) (bs : Bytes) (elem : List Nat) : RCount → Nat
   | .affine g a b => (numAt view g - b) / a
   | .lit n => n
   | .rest => bs.length / elemSize elem
+  | .expr e => e.eval view
 
 def parseField (view : View) (r : RF) (bs : Bytes) : Option (Val × Bytes) :=
   if condHolds view r.cond then
@@ -222,6 +403,14 @@ def parseField (view : View) (r : RF) (bs : Bytes) : Option (Val × Bytes) :=
     | .scalar sz => if bs.length < sz then none else some (.num (beVal (bs.take sz)), bs.drop sz)
     | .array cnt elem =>
       match parseRecs elem (evalCount view bs elem cnt) bs with
+      | some (xs, rest) => some (.arr xs, rest)
+      | none => none
+    | .arrayV cnt segs =>
+      match parseRecs (evalSegs view segs) (evalCount view bs (evalSegs view segs) cnt) bs with
+      | some (xs, rest) => some (.arr xs, rest)
+      | none => none
+    | .arrayL cnt hw item =>
+      match parseRecsL hw item (evalCount view bs item cnt) bs with
       | some (xs, rest) => some (.arr xs, rest)
       | none => none
   else some (.absent, bs)
@@ -237,19 +426,26 @@ def parse : List RF → View → Bytes → Option (View × Bytes)
 /-! ## compatibility of a (writer, reader) pair — decidable, checked per generated pair by `decide` -/
 
 /-- A validity condition on the owned value that the generated writer does *not* establish by itself (the schema
-has no `#[compile(array_len(..))]` for the count): the (writer, reader) pair round-trips only on values that satisfy
-it.  Each one emitted by the translator is a place where the real code round-trips only if `Validate` (or the
-caller) enforces the condition; the harness probes every one of them on the real code. -/
+has no `#[compile(array_len(..))]` for the count; the count is an argument the reader receives from its parent; the
+element size depends on a format the writer does not look at): the (writer, reader) pair round-trips only on values
+that satisfy it.  Each one emitted by the translator is a place where the real code round-trips only if `Validate`,
+a hand-written `compute_*` (or the caller) enforces the condition; the harness probes them on the real code.
+`view` is what the writer wrote (and the reader's arguments). -/
 inductive Assume
   | fieldIsCount (g arr a b : Nat)   -- the owned scalar `g` holds `a * len(arr) + b`
   | sameLen (arr arr' : Nat)         -- two owned arrays have the same length
   | lenIs (arr n : Nat)              -- an owned `Vec` has exactly `n` elements
+  | lenIsExpr (arr : Nat) (e : NExpr) -- an owned `Vec` has exactly as many elements as the reader computes (`e`)
+  | elemLen (arr : Nat) (segs : Segs) -- every element of an owned `Vec` of variable-size records has exactly the
+                                     -- scalars of the element layout the reader computes
   deriving DecidableEq, Repr
 
-def Assume.holds (o : Obj) : Assume → Prop
+def Assume.holds (o : Obj) (view : View) : Assume → Prop
   | .fieldIsCount g arr a b => ∀ xs, o.get arr = .arr xs → o.get g = .num (a * xs.length + b)
   | .sameLen arr arr' => ∀ xs xs', o.get arr = .arr xs → o.get arr' = .arr xs' → xs.length = xs'.length
   | .lenIs arr n => ∀ xs, o.get arr = .arr xs → xs.length = n
+  | .lenIsExpr arr e => ∀ xs, o.get arr = .arr xs → xs.length = e.eval view
+  | .elemLen arr segs => ∀ xs, o.get arr = .arr xs → ∀ x ∈ xs, x.length = (evalSegs view segs).length
 
 /-- the writer statement that wrote the count the reader sizes array `arr` with -/
 def isCountFor (g arr a b : Nat) (p : WF) : Bool :=
@@ -274,14 +470,38 @@ def countCompat (as : List Assume) (pre : List WF) (id g a b : Nat) : Bool :=
   (as.contains (.fieldIsCount g id a b) && pre.any (isPlainField g)) ||
   as.any (isSameLenFor pre g id a b)
 
-def itemCompat (as : List Assume) (pre : List WF) (last : Bool) (id : Nat) : WItem → RItem → Bool
+/-- the fields / arguments an expression reads are not written by this or a later statement (so the reader evaluates
+it on the values the assumption talks about) -/
+def exprFresh (later : List WF) (id : Nat) (refs : List Nat) : Bool :=
+  refs.all fun g => g != id && !(later.any (fun p => p.id == g))
+
+/-- the element count the reader computes is the number of elements written -/
+def cntCompat (as : List Assume) (pre later : List WF) (id : Nat) (fixed : Option Nat) : RCount → Bool
+  | .lit n => fixed == some n || as.contains (.lenIs id n)
+  | .affine g a b => decide (0 < a) && countCompat as pre id g a b
+  | .expr e => as.contains (.lenIsExpr id e) && exprFresh later id e.refs
+  | .rest => false
+
+/-- whatever its counts evaluate to, the reader's element layout is the writer's fixed prefix `pre` followed by
+`tail`-byte scalars only -/
+def segsCompat (tail : Nat) : List Nat → Segs → Bool
+  | pre, [] => pre.isEmpty
+  | pre, (n, ws) :: rest =>
+    if pre.isEmpty then ws.all (· == tail) && segsCompat tail [] rest
+    else n == .lit 1 && ws.isPrefixOf pre && segsCompat tail (pre.drop ws.length) rest
+
+def itemCompat (as : List Assume) (pre later : List WF) (id : Nat) : WItem → RItem → Bool
   | .scalar _ sz, .scalar sz' => sz == sz'
   | .array elem fixed, .array cnt elem' =>
     elem == elem' &&
     match cnt with
-    | .lit n => fixed == some n || as.contains (.lenIs id n)
-    | .affine g a b => decide (0 < a) && countCompat as pre id g a b
-    | .rest => last && decide (0 < elemSize elem)
+    | .rest => later.isEmpty && decide (0 < elemSize elem)
+    | c => cntCompat as pre later id fixed c
+  | .arrayV wpre tail fixed, .arrayV cnt segs =>
+    segsCompat tail wpre segs && as.contains (.elemLen id segs) && exprFresh later id (segsRefs segs) &&
+      cntCompat as pre later id fixed cnt
+  | .arrayL hw item, .arrayL cnt hw' item' =>
+    hw == hw' && item == item' && cntCompat as pre later id none cnt
   | _, _ => false
 
 /-- a condition names a field that has already been written -/
@@ -298,12 +518,13 @@ def compatAux (as : List Assume) (pre : List WF) : List WF → List RF → Bool
   | [], [] => true
   | w :: ws, r :: rs =>
     w.id == r.id && w.cond == r.cond && !(pre.any (fun p => p.id == w.id)) && condOk pre w.cond &&
-      itemCompat as pre ws.isEmpty w.id w.item r.item && compatAux as (w :: pre) ws rs
+      itemCompat as pre ws w.id w.item r.item && compatAux as (w :: pre) ws rs
   | _, _ => false
 
 /-- Same field sequence, names, widths and conditions; every array the reader sizes with a count field is the very
 array whose length the writer stored in that field (with inverse arithmetic) — or the listed assumption says so;
-arrays sized by the end of the data are last; field ids are distinct. -/
+arrays sized by the end of the data are last; field ids are distinct; the element layout the reader computes for a
+variable-size record is, for every value of its counts, the one the writer uses. -/
 def compatU (as : List Assume) (w : List WF) (r : List RF) : Bool := compatAux as [] w r
 
 /-- compatibility with no assumption on the value -/
@@ -320,6 +541,8 @@ def WF.owned (w : WF) : Bool :=
   | .scalar .field _ => true
   | .scalar _ _ => false
   | .array _ _ => true
+  | .arrayV _ _ _ => true
+  | .arrayL _ _ => true
 
 /-- `FromObjRef::from_obj_ref`: the owned struct keeps exactly the owned fields of what the getters return -/
 def toObj (ws : List WF) (view : View) : Obj :=
@@ -330,5 +553,42 @@ as recorded in `view`) replaced by "absent" — what a round trip can at best re
 written -/
 def dropGated (ws : List WF) (view : View) (o : Obj) : Obj :=
   (ws.filter WF.owned).map fun w => (w.id, if condHolds view w.cond then o.get w.id else .absent)
+
+/-! ## format enums -/
+
+/-- one variant of a generated format enum: the value of its format field (`impl Format<T> for XMarker { const FORMAT }`),
+the writer program and reader layout of the variant's table, and the conditions its round trip needs -/
+structure Variant where
+  fmt : Nat
+  w : List WF
+  r : List RF
+  as : List Assume
+  deriving DecidableEq, Repr
+
+/-- generated `impl FontRead for Enum`: `let format: T = data.read_at(0)?; match format { XMarker::FORMAT =>
+Ok(Self::X(FontRead::read(data)?)), …, other => Err(ReadError::InvalidFormat(other)) }` (`hw` = width of `T`): the
+format found, and what the selected variant's reader returns.  (The generated `impl FontWrite for Enum` is
+`match self { Self::X(item) => item.write_into(writer), … }`: `emit` of the variant's program.) -/
+def parseEnum (hw : Nat) (vs : List Variant) (args : View) (bs : Bytes) : Option (Nat × View × Bytes) :=
+  if bs.length < hw then none
+  else
+    match vs.find? (fun v => v.fmt == beVal (bs.take hw)) with
+    | none => none
+    | some v =>
+      match parse v.r args bs with
+      | some (view, rest) => some (v.fmt, view, rest)
+      | none => none
+
+/-- the variant's writer starts with `(FORMAT as T).write_into(writer)` -/
+def startsWithFormat (hw : Nat) (v : Variant) : Bool :=
+  match v.w with
+  | ⟨_, none, .scalar (.const c) sz⟩ :: _ => c == v.fmt && sz == hw
+  | _ => false
+
+/-- every variant is a compatible pair whose writer begins with its own format constant, and the reader's `match`
+sends that constant to this variant (the constants are pairwise distinct) -/
+def enumCompat (hw : Nat) : List Variant → Bool
+  | [] => true
+  | v :: vs => startsWithFormat hw v && compatU v.as v.w v.r && !(vs.any (fun v' => v'.fmt == v.fmt)) && enumCompat hw vs
 
 end FontVerif.Field
